@@ -64,8 +64,22 @@ func main() {
 		}
 	}
 	for _, n := range ev.Pick(r, []int{5, 64, 4097, 16385, 70001}, []int{5, 64, 4097, 16385, 70001, 1<<20 + 1}) {
-		if msg := reentrantBig(n, &famCalls); msg != "" {
-			r.Report(ev.Violation{Sig: "family|reentrant-range", Msg: msg, Replay: map[string]any{"family": "reentrant-range", "keys": n}})
+		// in its own goroutine: a callback that can never get the map's lock would otherwise stop this
+		// process for good (the family takes milliseconds; two minutes without an answer is a hang)
+		done := make(chan string, 1)
+		var calls int
+		go func() { done <- reentrantBig(n, &calls) }()
+		select {
+		case msg := <-done:
+			famCalls += calls
+			if msg != "" {
+				r.Report(ev.Violation{Sig: "family|reentrant-range", Msg: msg, Replay: map[string]any{"family": "reentrant-range", "keys": n}})
+			}
+		case <-time.After(2 * time.Minute):
+			r.Report(ev.Violation{Sig: "family|reentrant-range-hang", Msg: fmt.Sprintf("map of %d keys, one goroutine: a call made from inside a Range callback (Store / Range / Load / Delete on the same map) has not returned for two minutes", n), Replay: map[string]any{"family": "reentrant-range", "keys": n}})
+		}
+		if r.Violations() > 0 {
+			break
 		}
 	}
 	// long-history churn: ONE map, hundreds of thousands of calls over 12 keys (behaviour keyed to a
